@@ -347,32 +347,55 @@ structure MKey where
 /-- the map key the code derives: `round.Uint64()`, index, step -/
 def slotOf (k : MKey) : Nat × Nat × Nat := (k.round % 2 ^ 64, k.index, k.step)
 
+/-- a stored view remembers the inputs AND the chain branch (epoch: seeds / stake tables the look-back resolved) it was
+    computed for -/
+structure Origin where
+  key : MKey
+  epoch : Nat
+  deriving DecidableEq, Repr
+
 structure Mgr where
   round : Nat
-  cache : List ((Nat × Nat × Nat) × MKey)
+  epoch : Nat     -- identity of the branch the chain reader resolves now (not known to the manager)
+  cache : List ((Nat × Nat × Nat) × Origin)
 
-def Mgr.init : Mgr := ⟨0, []⟩
+def Mgr.init : Mgr := ⟨0, 0, []⟩
 
-def Mgr.lookup (m : Mgr) (k : MKey) : Option MKey :=
+def Mgr.lookup (m : Mgr) (k : MKey) : Option Origin :=
   (m.cache.find? (fun e => decide (e.1 = slotOf k))).map (·.2)
 
 /-- a query for `k`; `store` = whether the code stores a freshly computed view (validator: always; proposer: seats > 0).
-    Returns the inputs the handed-out credential was computed for. -/
-def Mgr.query (m : Mgr) (k : MKey) (store : Bool) : Mgr × MKey :=
+    Returns what the handed-out credential was computed for. -/
+def Mgr.query (m : Mgr) (k : MKey) (store : Bool) : Mgr × Origin :=
   match m.lookup k with
   | some o => (m, o)
-  | none => (if store then { m with cache := (slotOf k, k) :: m.cache } else m, k)
+  | none => (if store then { m with cache := (slotOf k, ⟨k, m.epoch⟩) :: m.cache } else m, ⟨k, m.epoch⟩)
 
-def Mgr.clear (m : Mgr) (r : Nat) : Mgr := if r = m.round then m else ⟨r, []⟩
+/-- `ClearStepView(r)`: `if round.Cmp(sm.round) == 0 { return }; sm.round = round; wipe` -/
+def Mgr.clear (m : Mgr) (r : Nat) : Mgr := if r = m.round then m else { m with round := r, cache := [] }
+
+/-- head rewind / re-org: the chain reader resolves another branch from now on, and the Server (StartNewRound →
+    clearData) notifies `ClearStepView(head round + 1)` -/
+def Mgr.rewind (m : Mgr) (r : Nat) : Mgr := ({ m with epoch := m.epoch + 1 } : Mgr).clear r
 
 inductive MOp where
   | query (k : MKey) (store : Bool)
   | clear (r : Nat)
+  | rewind (r : Nat)
 
-/-- run an op sequence; collects (asked, origin of what was handed out) for every query -/
-def runOps : Mgr → List MOp → List (MKey × MKey)
+/-- run an op sequence; collects (asked, current epoch, origin of what was handed out) for every query -/
+def runOps : Mgr → List MOp → List (MKey × Nat × Origin)
   | _, [] => []
-  | m, .query k st :: rest => (k, (m.query k st).2) :: runOps (m.query k st).1 rest
+  | m, .query k st :: rest => (k, m.epoch, (m.query k st).2) :: runOps (m.query k st).1 rest
   | m, .clear r :: rest => runOps (m.clear r) rest
+  | m, .rewind r :: rest => runOps (m.rewind r) rest
+
+/-- a rewind really moves the manager to another round (the Server goes back to a LOWER round); a branch switch that
+    keeps the round would not be noticed by `ClearStepView` -/
+def rewindsMove : Mgr → List MOp → Prop
+  | _, [] => True
+  | m, .query k st :: rest => rewindsMove (m.query k st).1 rest
+  | m, .clear r :: rest => rewindsMove (m.clear r) rest
+  | m, .rewind r :: rest => r ≠ m.round ∧ rewindsMove (m.rewind r) rest
 
 end YouVerif.C04
